@@ -52,6 +52,8 @@ pub fn blocks(thorough: bool) -> Vec<Block> {
         b.push(Block::new(u_many(30), thr(&[0, D], &[(1, 1)]), "r x {{}, d}"));
         b.push(Block::new(u_nested_rep(), thr(&[0, X], &[(1, 1)]), "r x {{}, x}"));
         b.push(Block::new(u_prefix_suffix2(4), thr(&[0], &[(1, 1)]), "r"));
+        b.push(Block::new(u_rep_single(&["\\d", "1", "d"], 8), thr(&[D], &[(1, 1)]), "r+d (a literal backslash-letter pair and the class token with the same text inside repeated blocks of one test case)"));
+        b.push(Block::new(u_rep_single(&["\\s", " ", "s"], 8), thr(&[S], &[(1, 1)]), "r+s"));
         b.push(Block::new(u_feature_rich(), thr(&lattice_all(0, ALL_BITS & !(U | C | R)).iter().map(|c| c.bits).collect::<Vec<u32>>(), &[(1, 1)]), "r x all 4,096 combinations of the other flags"));
         b.push(Block::new(u_kind_triples(), thr(&[0, X], &[(1, 1)]), "r x {{}, x}"));
         b.push(Block::new(u_corpus("U_longstr", verif_seed() + 7, 4_000, &["a", "b", "c"], (1, 1), (40, 90)), thr(&[0], &[(1, 1)]), "r (corpus of long single strings: dozens of repetition ranges each)"));
